@@ -100,6 +100,8 @@ pub struct Families {
     pub cenum_crlf: bool,
     /// the single-comment enumeration uses only the inline block comment shape
     pub cenum_block_only: bool,
+    /// an empty line after token #k of the corpus files (same enumeration as `comment_enum`)
+    pub blank_enum: bool,
     /// pinned: two comments around every token of the harness's own corpus files
     pub comment_pairs: bool,
     /// pinned: the canonical text of every small corpus file re-spaced (compact / doubled blanks
@@ -193,6 +195,9 @@ impl Work {
         }
         if fam.comment_enum && !only_seeded {
             n += self.corpus.len() * 3;
+        }
+        if fam.blank_enum && !only_seeded {
+            n += self.corpus.len();
         }
         if fam.tiny && !only_seeded {
             n += 1;
@@ -370,6 +375,13 @@ impl Work {
             }
             i -= self.corpus.len() * 3;
         }
+        if fam.blank_enum && !only_seeded {
+            if i < self.corpus.len() {
+                self.comment_enum_item(ctx, i, 3, false, f);
+                return;
+            }
+            i -= self.corpus.len();
+        }
         if fam.tiny && !only_seeded {
             if i == 0 {
                 self.tiny_item(ctx, f);
@@ -392,9 +404,13 @@ impl Work {
                         mixed.push_str(line);
                     }
                 }
-                for (name, text) in [("crlf", crlf), ("mixed", mixed)] {
+                // lf: the text as stored, printed with Windows endings (a second pass then reads CRLF)
+                for (name, text) in [("crlf", crlf), ("mixed", mixed), ("lf", lf.clone())] {
                     for le in ["Unix", "Windows"] {
                         if quick && ((i % 2 == 0) != (le == "Unix")) && name == "mixed" {
+                            continue;
+                        }
+                        if name == "lf" && le == "Unix" {
                             continue;
                         }
                         let mut c = Cfg::with_syntax(file.syntax);
@@ -993,6 +1009,7 @@ impl Work {
         let (shape_name, ins) = match shape {
             0 => ("line-trailing", " -- c9\n"),
             1 => ("block-inline", " --[[c9]] "),
+            3 => ("blank-line", "\n\n"),
             _ => ("line-own", "\n-- c9\n"),
         };
         let quick = ctx.quick();
